@@ -42,7 +42,8 @@ Definition ident := Z.   (* symbol; the runner interns names, primitives have fi
 Inductive datum :=       (* quoted data: (quote d) *)
 | DInt (z : Z)
 | DSym (s : ident)
-| DList (ds : list datum).
+| DList (ds : list datum)
+| DFlt (h : Z).        (* the float literal h/2: floats enter only as literals (as in RefSem.v) *)
 
 Inductive expr :=
 | EInt (z : Z)                                   (* int64 literal, in range *)
@@ -93,15 +94,16 @@ Inductive value :=
 | VClos (name : option ident) (ps : list (ident * bool)) (rest : option ident)
         (body : list expr) (env : list nat)      (* env = static chain, innermost first *)
 | VPrim (p : prim)
+| VFlt (h : Z)                                    (* the float h/2; arithmetic and comparison on floats are declined *)
 | VThunk (c : nat).                               (* expressions.go:SexpLazyArg; c = cell in the thunk table *)
 
 (* the types zygo.Sexp.Type() distinguishes on the values above (None = untyped) *)
-Inductive ty := TInt | TBool | TStr | TSym | TSlice | TEmpty.
+Inductive ty := TInt | TBool | TStr | TSym | TSlice | TEmpty | TFloat.
 
 (* printable snapshot of a value (arrays by content at the time of the snapshot) *)
 Inductive sval :=
 | SvInt (z : Z) | SvBool (b : bool) | SvNil | SvStr (s : list Z) | SvSym (s : ident)
-| SvPair (h t : sval) | SvArr (l : list sval) | SvFn | SvPrim (p : prim) | SvCut | SvThunk.
+| SvPair (h t : sval) | SvArr (l : list sval) | SvFn | SvPrim (p : prim) | SvCut | SvThunk | SvFlt (h : Z).
 
 (* ------------------------------------------------------------------ 3. store *)
 
@@ -218,7 +220,7 @@ Definition truthy (v : value) : bool :=        (* expressions.go:IsTruthy *)
 
 Definition ty_eqb (a b : ty) : bool :=
   match a, b with
-  | TInt, TInt | TBool, TBool | TStr, TStr | TSym, TSym | TSlice, TSlice | TEmpty, TEmpty => true
+  | TInt, TInt | TBool, TBool | TStr, TStr | TSym, TSym | TSlice, TSlice | TEmpty, TEmpty | TFloat, TFloat => true
   | _, _ => false
   end.
 
@@ -231,6 +233,7 @@ Fixpoint type_of (d : nat) (ars : list arrobj) (v : value) : option ty * list ar
   | VBool _ => (Some TBool, ars)
   | VStr _ => (Some TStr, ars)
   | VSym _ => (Some TSym, ars)
+  | VFlt _ => (Some TFloat, ars)
   | VArr a =>
     match d with
     | O => (None, ars)
@@ -303,7 +306,8 @@ Fixpoint cmp_val (d : nat) (ars : list arrobj) (a b : value) : cmpres :=
   | O => CmpUnspec
   | S d' =>
     match a with
-    | VInt x => match b with VInt y => CmpOk (zsgn (x ?= y)) | _ => CmpErr end
+    | VInt x => match b with VInt y => CmpOk (zsgn (x ?= y)) | VFlt _ => CmpUnspec | _ => CmpErr end
+    | VFlt _ => CmpUnspec                        (* numeric comparison with a float: declined *)
     | VBool x => match b with
                  | VBool y => CmpOk (if x then (if y then 0 else 1) else (if y then -1 else 0))
                  | _ => CmpErr end
@@ -362,6 +366,7 @@ Fixpoint snap (d : nat) (ars : list arrobj) (v : value) {struct d} : sval :=
        | VClos _ _ _ _ _ => SvFn
        | VPrim p => SvPrim p
        | VThunk _ => SvThunk
+       | VFlt h => SvFlt h
        end) v
   end.
 
@@ -369,6 +374,7 @@ Fixpoint datum_val (d : datum) : value :=
   match d with
   | DInt z => VInt z
   | DSym s => VSym s
+  | DFlt h => VFlt h
   | DList ds => fold_right (fun x acc => VPair (datum_val x) acc) VNil ds
   end.
 
@@ -577,6 +583,7 @@ Fixpoint expr_datum (e : expr) : option value :=
   | ENil => Some VNil              (* the reader yields SexpNull for nil *)
   | EStr s => Some (VStr s)
   | EVar x => Some (VSym x)
+  | EQuote (DFlt h) => Some (VFlt h)          (* a float literal is written bare: the reader yields the float *)
   | EQuote d => Some (list_val [VSym kw_quote; datum_val d])
   | ECall f args => option_map list_val (opt_cons (expr_datum f) (all args))
   | EBegin es => option_map (fun vs => list_val (VSym kw_begin :: vs)) (all es)
@@ -707,7 +714,7 @@ Section Open.
            end) ;;
     match fv with
     | VClos _ _ _ _ _ | VPrim _ => vs <- prep_args env (lazy_flags fv) args ;; ap fv vs
-    | VSym _ | VArr _ => raise EUnspec
+    | VSym _ | VArr _ | VFlt _ => raise EUnspec
     | _ => match args with [] => ret fv | _ => raise EOther end
     end.
 
@@ -746,9 +753,14 @@ Section Open.
   Fixpoint arith (op : Z -> Z -> Z) (acc : value) (r : list value) : M value :=
     match r with
     | [] => ret acc
-    | b :: r' => match acc, b with
-                 | VInt x, VInt y => arith op (VInt (wrap64 (op x y))) r'
-                 | _, _ => raise EOther
+    | b :: r' => match acc with
+                 | VInt x => match b with
+                             | VInt y => arith op (VInt (wrap64 (op x y))) r'
+                             | VFlt _ => raise EUnspec      (* float arithmetic: declined *)
+                             | _ => raise EOther
+                             end
+                 | VFlt _ => raise EUnspec
+                 | _ => raise EOther
                  end
     end.
 
@@ -781,6 +793,13 @@ Section Open.
     | [] => ret acc
     | VArr b :: r => o <- liftC (get_arr b) ;; cat_arrs (acc ++ a_elems o) r
     | _ => raise EOther
+    end.
+
+  (* listutils.go:ConcatLists as the reference semantics has it (RefSem.v:cat_lists) *)
+  Fixpoint cat_lists (acc : list value) (rest : list value) : option (list value) :=
+    match rest with
+    | [] => Some acc
+    | b :: r => match val_list b with Some lb => cat_lists (acc ++ lb) r | None => None end
     end.
 
   Definition prim_apply (p : prim) (args : list value) : M value :=
@@ -889,9 +908,20 @@ Section Open.
            | VArr a :: rest =>
              o <- liftC (get_arr a) ;;
              els <- cat_arrs (a_elems o) rest ;;
-             if Nat.eqb (length els) (length (a_elems o)) then raise EUnspec
-             else liftC (alloc_arr els None)
-           | VStr _ :: _ | VPair _ _ :: _ => raise EUnspec
+             liftC (alloc_arr els None)
+           | VPair h t :: rest =>
+             match rest with
+             | [] => ret (VPair h t)               (* ConcatFunction: one list argument is returned as it is *)
+             | _ :: _ =>
+               match val_list (VPair h t) with
+               | Some la => match cat_lists la rest with
+                            | Some l => ret (list_val l)
+                            | None => raise EOther
+                            end
+               | None => raise EOther
+               end
+             end
+           | VStr _ :: _ => raise EUnspec
            | _ => raise EOther
            end
     | PTrace => liftC (trace_c args)
